@@ -81,6 +81,8 @@ void h_compound(void) {
         return;
     }
     _Bool sgn = dst.sign == Sign_SIGNED;
+    /* a plain char variable is converted with the platform's default sign (known values only) */
+    if (nondet_bool()) { __CPROVER_assume(sz == 1 && v.kind == K_KNOWN); dst.type = VType_CHAR; dst.sign = Sign_UNKNOWN_SIGN; g_default_sign = sgn ? 's' : 'u'; }
     /* impossible values are decided for int only (see the module text) */
     if (v.kind == K_IMPOSSIBLE) __CPROVER_assume(sgn && sz == 4);
     bigint x = nondet_bigint(), c = nondet_bigint();
@@ -151,6 +153,7 @@ def build(ctx):
     enums, _ = _common.valuetype_enums()
     vts, vtloc = _common.valuetype_struct()
     trunc, n = k01_truncate.truncate_with_contract(kb, ID)
+    csign, kcs = _common.conversion_sign(kb, ID); n += kcs
     src = "lib/vf_analyzers.cpp"
     # ---- the guard of isWritable
     fw = extract.locate_function(src, r'^\s*virtual Action isWritable\(const Token\* tok, Direction d\) const')
@@ -199,6 +202,7 @@ def build(ctx):
         (r'\btok->astParent\(\)->str\(\) != ("(?:[^"\\]|\\.)*")', r'!vstr_eq(assign, assign_len, \1)', 0, 1),
         (r'\bdst->getSizeOf\(settings,\s*ValueType::Accuracy::ExactOrZero,\s*ValueType::SizeOf::Pointer\)', 'sz_in', 0, 1),
         (r'\bValueFlow::truncateIntValue\(', 'truncateIntValue(', 0, 1),
+        _common.CONVERSION_SIGN_CALL,
         (r'\bvalue->intvalue\b', 'v->intvalue', 0),
     ], ID + ".writeValue.assign"); n += k
     ta = extract.strip_comments(ta).rstrip()
@@ -209,7 +213,7 @@ def build(ctx):
         raise extract.ExtractError("K47 writeValue: expected the region to end inside the `if (evalAssignment...) {` block, found %d open blocks" % opens)
     ab = ("static void assign_block(struct VValue *v, const char *assign, size_t assign_len, bigint rhs, _Bool forward, const struct ValueType *dst_in, size_t sz_in, _Bool *updated)\n{\n%s\n    *updated = 1;\n}\n}\n" % ta)
     kb.rules_fired = n
-    text = _common.BASE + enums + vts + PRELUDE + trunc + guard + te + "\n" + ab
+    text = _common.BASE + enums + vts + PRELUDE + trunc + csign + guard + te + "\n" + ab
     extract.residue_scan(text, ID)
     kb.ctext = text + HARNESS
     kb.job("add", "h_compound", replace=["truncateIntValue"], unwind=8, replay="stmt", defines=["OPSEL=0"],
